@@ -71,7 +71,9 @@ pub fn run(rep: &mut Report, tier: &str, seed: u64) {
                         } else if class == "ok" && ir.graph.as_ref() != Some(mg) {
                             rep.fail("disagreement", &format!("C02 {}: graphs differ", mode), false, replay);
                         } else if class != "ok" && class != mclass {
-                            rep.count(&format!("soft:{}-error-variant-differs:{}/{}", mode, class, mclass));
+                            // both fail with different errors: the model mirrors the evaluation order of each mode, so
+                            // which error surfaces is part of the correspondence
+                            rep.fail("disagreement", &format!("C02 {}: error variant implementation {} / model {}", mode, class, mclass), false, replay);
                         }
                     }
                 }
